@@ -189,6 +189,10 @@ class _File:
         data = self.fs.files[self.path]
         chunk = data[self.pos:] if n is None or n < 0 else data[self.pos:self.pos + n]
         self.pos += len(chunk)
+        self.fs.n_io = getattr(self.fs, "n_io", 0) + 1
+        if getattr(self.fs, "fault_at", None) == self.fs.n_io:
+            # the operation was carried out by the peer, but its reply did not arrive in time
+            raise MI.Raised("AsyncResultTimeout")
         return chunk
 
     def write(self, b):
@@ -197,6 +201,9 @@ class _File:
         if not isinstance(b, bytes):
             raise MI.Raised("TypeError")
         self.fs.files[self.path] += b
+        self.fs.n_io = getattr(self.fs, "n_io", 0) + 1
+        if getattr(self.fs, "fault_at", None) == self.fs.n_io:
+            raise MI.Raised("AsyncResultTimeout")
         return len(b)
 
     def close(self):
@@ -273,11 +280,12 @@ def model_copy(ctx, rep, direction):
     flt_tmp = lambda name: not (name.endswith(".tmp") or name.startswith("_") or name == "build")
     for chunk, debug_on, stale in [(c_, False, False) for c_ in (1, 64, 256, 768, 1000, 16000)] + [(256, True, False), (256, False, True)]:
         for flt_name, flt in (("no filter", None), ("filter", flt_tmp)):
-            for what in ("tree", "file", "empty file", "tree named with a trailing separator",
+            for what in ("tree", "file", "empty file", "file during which one reply of the peer times out", "tree named with a trailing separator",
                          "tree whose own name the filter would reject as an entry", "file whose own name the filter would reject as an entry"):
                 if chunk == 1 and what.startswith("tree"):
                     continue
-                if (what.endswith("separator") or what.endswith("as an entry")) and (chunk != 256 or stale or debug_on):
+                if (what.endswith("separator") or what.endswith("as an entry") or what.endswith("times out")) and \
+                        (chunk != 256 or stale or debug_on):
                     continue
                 if what.endswith("as an entry") and flt is None:
                     continue
@@ -300,7 +308,10 @@ def model_copy(ctx, rep, direction):
                     glob[nm] = (lambda f: lambda *a, **k: MI.call_function(f.node, list(a), extra, k))(f)
                 extra["__globals__"] = glob
                 extra["__global_lookup__"] = _glookup(ctx, mod, extra)
+                if what.endswith("times out"):
+                    remote.fault_at = 2          # the second read()/write() on the peer's file object
                 s_path = {"tree": "src", "file": "src/a.bin", "empty file": "src/empty",
+                          "file during which one reply of the peer times out": "src/a.bin",
                           "tree whose own name the filter would reject as an entry": "src/cache.tmp",
                           "file whose own name the filter would reject as an entry": "src/skip.tmp"}.get(what, "src/")
                 # (the caller names source and destination; the filter selects among the ENTRIES of a directory)
@@ -319,7 +330,13 @@ def model_copy(ctx, rep, direction):
                 label = "%s of a %s, chunk size %d, %s%s%s" % (direction, what, chunk, flt_name, ", debug logging enabled" if debug_on else "",
                                                            ", over an earlier copy with the same names and sizes" if stale else "")
 
-                if out:
+                if what.endswith("times out"):
+                    # a transfer that reports the failure is fine; one that claims success must have produced a faithful copy
+                    if not out and got_f != want_f:
+                        bad.append("%s: returns normally although the copy differs (%s)" % (label, "; ".join(
+                            "%s: %d bytes instead of %d" % (k_, len(got_f.get(k_, b"")), len(want_f.get(k_, b"")))
+                            for k_ in sorted(set(got_f) | set(want_f)) if got_f.get(k_) != want_f.get(k_))[:200]))
+                elif out:
                     bad.append("%s: %s" % (label, out))
                 elif got_f != want_f or got_d != want_d:
                     diff = []
